@@ -378,9 +378,10 @@ def run(U, rep, tier):
   rep.stat('abstract_states', states)
   rep.stat('transitions', trans)
   rep.exhaustive = True
-  sh = [('PmapWrapper', 2, 2, 1), ('PjitWrapper', 2, 2, 1)]
+  # per-shard batch >= 2 with >= 2 shards: the only case in which shard-major interleaving differs from concatenation
+  sh = [('PmapWrapper', 2, 2, 1), ('PjitWrapper', 2, 2, 1), ('PmapWrapper', 2, 3, 2), ('PjitWrapper', 2, 3, 2)]
   if tier == 'thorough':
-    sh += [('PmapWrapper', 3, 3, 2), ('PjitWrapper', 3, 2, 1), ('PmapWrapper', 2, 4, 2), ('PjitWrapper', 4, 2, 1)]
+    sh += [('PmapWrapper', 3, 3, 2), ('PjitWrapper', 3, 2, 1), ('PmapWrapper', 2, 4, 2), ('PjitWrapper', 4, 2, 1), ('PjitWrapper', 3, 4, 3)]
   for wname, shards, cap, batch in sh:
     trans += explore_sharded(U, rep, wname, shards, cap, batch, max_depth=3 if tier == 'quick' else 4)
   uniform_queue(U, rep)
